@@ -189,7 +189,11 @@ impl Prop for C09 {
         };
         let buffer = *[0usize, 1, 2, 3, 8].get(rng.random_range(0..5)).unwrap();
         if lane == "panic" {
-            let threads = rng.random_range(1..=4u8);
+            // many workers: the window between the first worker starting and Pipe::new finishing
+            // (hook installation, remaining spawns) gets wide
+            let threads = *[1u8, 2, 3, 4, 4, 8, 16, 32, 64]
+                .get(rng.random_range(0..9))
+                .unwrap();
             let n = rng.random_range(1..=12usize);
             let mut panic_at = vec![match rng.random_range(0..3) {
                 0 => 0,
